@@ -130,17 +130,43 @@ def good_candidate(rng, recipe):
     return None
 
 
+def many_sets_recipes():
+    """recipes with 9 and 10 required sets (plus class sets) (more than a byte-wide mask of 'sets still missing' can hold), satisfiable with good probability"""
+    chars = "abcdefghijklmnopqrstuvwxyzABCDEFGHIJKLMNOPQRSTUVWXYZ0123456789"
+    out = []
+    for k in (9, 10):
+        sets = [chars[5 * i:5 * i + 5] for i in range(k)]
+        out.append(Recipe(8 * k // 2, require_sets=sets))
+        out.append(Recipe(8 * k // 2, allow=8, require=4 | 8, require_sets=sets[:k - 2]))      # two class sets after the custom ones
+    return out
+
+
 def bad_candidate(rng, recipe):
-    """indices of a candidate that misses some live required family, or None"""
+    """indices of a candidate that misses some live required family, or None; half of the time a NEAR miss: every other
+    family is hit, exactly one (any one, the last ones included) is missed"""
     A = recipe.alphabet()
     fams = recipe.live_families()
     L = recipe.length
     if L < 1 or not A or not fams:
         return None
-    f = rng.choice(fams)
+    f = rng.choice(fams) if rng.random() < 0.6 else fams[-1 - rng.randrange(min(3, len(fams)))]
     outside = [i for i, c in enumerate(A) if c not in f]
     if not outside:
         return None
+    if rng.random() < 0.5 and len(fams) - 1 <= L:
+        cand, ok = [], True
+        for g in fams:
+            if g is f:
+                continue
+            hit = [i for i in outside if A[i] in g]
+            if not hit:
+                ok = False
+                break
+            cand.append(rng.choice(hit))
+        if ok:
+            cand += [rng.choice(outside) for _ in range(L - len(cand))]
+            rng.shuffle(cand)
+            return cand
     if rng.random() < 0.5:
         return [rng.choice(outside)] * L
     return [rng.choice(outside) for _ in range(L)]
@@ -409,6 +435,38 @@ def run_chargen_family(ctx, nrec, budgets=None, want=3, recipes=None):
     for meta, a, b in res[:2]:
         ctx.sample({"recipe": meta["recipe"], "budget": meta["budget"], "tape": meta["features"], "impl": a, "model": b})
     return res
+
+
+def process_verdict(meta, a):
+    """The documented process on a fault-free stream: candidates of Length draws into the sorted alphabet, the first one that
+    satisfies the recipe is returned, at most MaxTrials of them.  Given a real result for a recipe the implementation accepted,
+    returns None or a description of how the result departs from that process (whose outcomes are the equally likely ones)."""
+    d = parse_password(a)
+    if not d:
+        return None
+    r, budget = meta["_recipe"], meta["budget"]
+    head = a.split(" stdout=")[0].split(" ")
+    if r.length < 1 or not r.alphabet():
+        return None
+    if d["outcome"] == "err" and "exhausted" not in head[:3]:
+        return None          # refused before drawing (length, alphabet, failure rate): other properties
+    kind, cand, nbytes = simulate(r, budget, meta["_words"])
+    if d["outcome"] == "ok":
+        try:
+            out = "".join(t[0].decode("utf-8") for t in d.get("tokens", []))
+        except UnicodeDecodeError:
+            return "the returned password is not text"
+        if kind == "exhausted":
+            return "a password (%r) was returned on a stream on which all %d permitted attempts miss a requirement" % (out[:40], budget[0])
+        if kind == "ok" and out != "".join(cand):
+            return "the returned string %r is not the first satisfying candidate of its stream (%r)" % (out[:40], "".join(cand)[:40])
+        return None
+    if kind == "ok":
+        if d["outcome"] == "err":
+            return "generation gave up although attempt %d of the %d permitted ones on the stream (%r) satisfies the recipe" % (nbytes // (4 * r.length), budget[0], "".join(cand)[:40])
+        if d["outcome"] == "panic" and head[1:2] == ["prng"] and int(d.get("consumed", "0")) > nbytes:
+            return "the stream ran dry after %s bytes although the candidate ending at byte %d (%r) satisfies the recipe: a satisfying candidate was passed over" % (d.get("consumed"), nbytes, "".join(cand)[:40])
+    return None
 
 
 def simulate(recipe, budget, words):
